@@ -314,11 +314,14 @@ theorem C05_queue_bound (cfg : Cfg) (hm : 0 < cfg.minHead) (evs : List Ev) (s : 
 
 /-- the number for the transport the code is written for (a read of at most `HW_BUFFER_SIZE`)
 and the shortest head `httparse` accepts (`"A / HTTP/1.1\n\n"`, 14 bytes): 9 963 messages -/
-example : queueMax { wbs := 32768, readCap := h1HwBufferSize, minHead := 14 } = 9963 := by decide
+example (h1 : h1MaxBufferSize = 131072) (h2 : h1HwBufferSize = 8192) (h3 : h1MaxPipelined = 16) :
+    queueMax { wbs := 32768, readCap := h1HwBufferSize, minHead := 14 } = 9963 := by
+  simp [queueMax, readBufMax, h1, h2, h3]
 
 /-- … and for a transport that fills whatever `BytesMut` offers (observed: 131 073): 18 740 -/
-example : queueMax { wbs := 32768, readCap := h1MaxBufferSize + 1, minHead := 14 } = 18740 := by
-  decide
+example (h1 : h1MaxBufferSize = 131072) (h3 : h1MaxPipelined = 16) :
+    queueMax { wbs := 32768, readCap := h1MaxBufferSize + 1, minHead := 14 } = 18740 := by
+  simp [queueMax, readBufMax, h1, h3]
 
 /-- the decode loop is entered only below `MAX_PIPELINED_MESSAGES` -/
 theorem C05_decode_needs_queue_room (cfg : Cfg) (s s' : S) (he : step cfg s .enter = some s') :
@@ -376,7 +379,10 @@ theorem C05_weighted_refines (cfg : Cfg) (evs : List Ev) (x : SW)
   runW_run evs initW x h
 
 /-- the number for HW-sized reads -/
-example : heldMax { wbs := 32768, readCap := h1HwBufferSize, minHead := 14 } = 5119951 := by decide
+example (h1 : h1MaxBufferSize = 131072) (h2 : h1HwBufferSize = 8192) (h3 : h1MaxPipelined = 16)
+    (h4 : payloadMaxBufferSize = 32768) :
+    heldMax { wbs := 32768, readCap := h1HwBufferSize, minHead := 14 } = 5119951 := by
+  simp [heldMax, msgMax, payloadMax, readBufMax, h1, h2, h3, h4]
 
 /-- a non-trivial weighted run: one request in service, two queued (the second with 100 buffered
 body bytes), 7 unparsed bytes -/
